@@ -161,6 +161,27 @@ def permutation_pairs(lines=PERM_LINES, sizes=(3, 4), extras=PERM_EXTRA):
                         yield act[:k] + [xa] + act[k:], ref[:k] + [xe] + ref[k:]
 
 
+# --- multisets of lines (repeats) ---------------------------------------------
+# two 3-line alphabets: three plain lines; and one where stripping merges two
+MULTI_ALPHABETS = [['a', 'b', 'c'], ['a', 'a ', 'b']]
+
+
+def multiset_pairs(alphabet, sizes=(3, 4, 5), full_reference_upto=4):
+    """(actual, reference) pairs of equal length n over a 3-line alphabet WITH
+    repeats: actual = every sequence of length n (so every permutation of the
+    reference's multiset, every sequence with the same set of lines but other
+    multiplicities, and everything else); reference = every sequence for
+    n <= full_reference_upto, else every multiset in alphabet order."""
+    for n in sizes:
+        if n <= full_reference_upto:
+            refs = itertools.product(alphabet, repeat=n)
+        else:
+            refs = itertools.combinations_with_replacement(alphabet, n)
+        for ref in refs:
+            for act in itertools.product(alphabet, repeat=n):
+                yield list(act), list(ref)
+
+
 # --- long texts (many lines, long lines) --------------------------------------
 LONG_SIZES = [200, 1000, 5000]
 LONG_DEVIATIONS = ['none', 'alter-first', 'alter-middle', 'alter-last',
